@@ -47,8 +47,10 @@ InferSpec(t) ==
          IN [type |-> "object", additionalProperties |-> [not |-> EmptyFcn]]
             @@ (IF fs = <<>> THEN <<>> ELSE [propertyOrder |-> [i \in DOMAIN fs |-> fs[i].name]])
             @@ (IF req = <<>> THEN <<>> ELSE [required |-> [i \in DOMAIN req |-> req[i].name]])
-            @@ [properties |-> [nm \in {fs[i].name : i \in DOMAIN fs} |->
-                                  InferSpec(fs[CHOOSE i \in DOMAIN fs : fs[i].name = nm].f.t)]]
+            \* (a struct without any field has no "properties" keyword at all)
+            @@ (IF t.fields = <<>> THEN <<>> ELSE
+                [properties |-> [nm \in {fs[i].name : i \in DOMAIN fs} |->
+                                  InferSpec(fs[CHOOSE i \in DOMAIN fs : fs[i].name = nm].f.t)]])
 
 \* ---------------------------------------------------------------- L1
 \* reflect.VisibleFields: depth-first, a Go name is visible at its unique shallowest depth
@@ -107,7 +109,8 @@ InferCode(t) ==
     [] t.k = "map" -> [type |-> "object", additionalProperties |-> InferCode(t.e)]
     [] t.k = "struct" ->
          LET r == Loop(VisibleFields(t), 1, EmptyFcn, <<>>, <<>>)
-         IN [type |-> "object", additionalProperties |-> [not |-> EmptyFcn], properties |-> r.props]
+         IN [type |-> "object", additionalProperties |-> [not |-> EmptyFcn]]
+            @@ (IF t.fields = <<>> THEN <<>> ELSE [properties |-> r.props])
             @@ (IF r.order = <<>> THEN <<>> ELSE [propertyOrder |-> DedupLast(r.order)])
             @@ (IF r.req = <<>> THEN <<>> ELSE [required |-> r.req])
 
@@ -128,6 +131,14 @@ IErr == [err |-> TRUE]
 IDrop == [drop |-> TRUE]
 IOk(x) == [s |-> x]
 IsOk(r) == "s" \in DOMAIN r
+\* where (index paths) an embedded struct with a TypeSchemas entry sits, searching through embedded structs without one
+RECURSIVE OvrSites(_, _, _)
+OvrSites(S, path, names) ==
+  UNION {LET f == S.fields[i] IN
+           IF IsEmbeddedStruct(f) /\ f.tag = "" /\ f.dash = "no"
+             THEN IF f.t.name \in names THEN {[idx |-> Append(path, i), name |-> f.t.name]} ELSE OvrSites(f.t, Append(path, i), names)
+             ELSE {}
+         : i \in DOMAIN S.fields}
 RECURSIVE InferOpt(_, _, _)
 InferOpt(t, ign, ts) ==
   CASE t.k = "bad" -> IF ign THEN IDrop ELSE IErr
@@ -143,20 +154,18 @@ InferOpt(t, ign, ts) ==
     [] t.k = "struct" ->
          IF t.name \in DOMAIN ts THEN IOk(ts[t.name])
          ELSE LET fs == EncFields(t)
-                  \* embedded structs that have an entry: their properties replace the promoted fields
-                  ovr == {i \in DOMAIN t.fields : IsEmbeddedStruct(t.fields[i]) /\ t.fields[i].t.name \in DOMAIN ts}
-                  plain == SelectSeq(fs, LAMBDA c : ~(\E i \in ovr : c.idx[1] = i))
+                  \* embedded structs (at any depth of embedding) that have an entry: the entry's
+                  \* properties replace the fields promoted through them
+                  sites == OvrSites(t, <<>>, DOMAIN ts)
+                  under(c) == \E st \in sites : Len(st.idx) <= Len(c.idx) /\ SubSeq(c.idx, 1, Len(st.idx)) = st.idx
+                  plain == SelectSeq(fs, LAMBDA c : ~under(c))
                   rs == [i \in DOMAIN plain |-> InferOpt(plain[i].f.t, ign, ts)]
                   kept == SelectSeq([i \in DOMAIN plain |-> i], LAMBDA i : IsOk(rs[i]))
-                  ovrNames(i) == SortNames(DOMAIN ts[t.fields[i].t.name].properties)
-                  \* order: declaration order, an overridden embedded field stands where it is declared
-                  slot(c) == c.idx[1]
-                  names == [i \in DOMAIN kept |-> plain[kept[i]].name]
                   req == SelectSeq(kept, LAMBDA i : ~Optional(plain[i].f))
               IN IF \E i \in DOMAIN plain : "err" \in DOMAIN rs[i] THEN IErr
                  ELSE LET props == [nm \in {plain[kept[i]].name : i \in DOMAIN kept} |->
                                       rs[CHOOSE i \in DOMAIN plain : IsOk(rs[i]) /\ plain[i].name = nm].s]
-                          oprops == UNION {{<<nm, ts[t.fields[i].t.name].properties[nm]>> : nm \in DOMAIN ts[t.fields[i].t.name].properties} : i \in ovr}
+                          oprops == UNION {{<<nm, ts[st.name].properties[nm]>> : nm \in DOMAIN ts[st.name].properties} : st \in sites}
                           allp == [nm \in DOMAIN props \cup {p[1] : p \in oprops} |->
                                      IF nm \in DOMAIN props THEN props[nm] ELSE (CHOOSE p \in oprops : p[1] = nm)[2]]
                       IN IOk([type |-> "object", additionalProperties |-> [not |-> EmptyFcn], properties |-> allp]
